@@ -14,7 +14,8 @@ use std::collections::BTreeMap;
 use std::panic::{catch_unwind, AssertUnwindSafe};
 
 const ZEROS: [&str; 8] = ["0", "0", "0", "0.0", "0x0", "00", "0e0", ".0"];
-const ENDS: [&str; 18] = ["1", "1", "1", "1.0", "0x1", "0x10", "2", "1e0", "0.5", "1e1", "10", "01", ".5", "1e-1", "1E0", "0", "0xF", "1.5"];
+const ENDS: [&str; 30] = ["1", "1", "1", "1.0", "0x1", "0x10", "2", "1e0", "0.5", "1e1", "10", "01", ".5", "1e-1", "1E0", "0", "0xF", "1.5",
+    "-1", "-0.5", "-inf", "-nan", "inf", "nan", "-infinity", "-x", "(1)", "1 + 0", "-NaN", "- 1"];
 const OPERANDS: [&str; 8] = ["x", "1", "-1", "(x)", "f()", "t.n", "#t", "2 ^ 3"];
 
 fn wrap(r: &mut Rng, body: &str) -> String {
